@@ -11,7 +11,7 @@ export CARGO_TARGET_DIR=$W/target CARGO_NET_OFFLINE=true
 k=0
 for d in /verif/seeded/*/; do
   id=$(basename $d)
-  [ "$id" = "_discarded" ] && continue
+  case "$id" in _*) continue ;; esac
   if [ -n "$ONLY" ]; then case " $ONLY " in *" $id "*) ;; *) continue ;; esac; fi
   k=$((k+1))
   [ $((k % N)) -ne $I ] && continue
